@@ -12,6 +12,9 @@ model's assumption "uint64 node ids do not overflow", now explicit).
 -/
 import SemaModel.C01.Model
 import SemaModel.Generated.IdCounter
+import SemaModel.Generated.PointCount
+import SemaModel.Base.KVLemmas
+import SemaModel.C19.Props
 namespace Sema.C01
 open Sema
 
@@ -56,5 +59,81 @@ theorem C01_tie_maxId (ic : Gen.IdCounter.IdCounter) (h : 1 ≤ ic.nextFreeId.to
 /-- non-vacuity: a counter with a free id and one without -/
 example : (Gen.IdCounter.IdCounter_NextId ⟨[7#64, 9#64], 12#64⟩) = (7#64, ⟨[9#64], 12#64⟩) := by decide
 example : (Gen.IdCounter.IdCounter_NextId ⟨[], 12#64⟩) = (12#64, ⟨[], 13#64⟩) := by decide
+
+
+/-! ### `changePointCount`
+
+`SemaModel/Generated/PointCount.lean` is `shard/shard.go changePointCount` translated with the bucket
+as the key-value model `KV` (`Base/KV.lean`; `Get` of an absent key and of an empty value are both
+"no bytes", `Put` is `KV.putBolt`), `conversion.BytesToUint64` / `Uint64ToBytes` being the definitions
+generated from `conversion/conversion.go`.  The function returns its error and the bucket.
+
+The model keeps the counter as `Shard.count : Option Nat`, read as `Shard.countV` (absent = 0), adds
+the batch size on insert and on delete rejects when `countV < k`, else subtracts.  Abstraction:
+`countOf bucket` = the number stored under `"pointCount"`. -/
+
+/-- `POINTCOUNTKEY` -/
+abbrev countKey : Bytes := [0x70#8, 0x6f#8, 0x69#8, 0x6e#8, 0x74#8, 0x43#8, 0x6f#8, 0x75#8, 0x6e#8, 0x74#8]
+
+/-- the point count a bucket holds (`Shard.countV` of the model) -/
+def countOf (b : KV) : Nat := (Gen.Conversion.BytesToUint64 ((b.get countKey).getD [])).toNat
+
+/-- an absent counter reads as 0 -/
+theorem countOf_absent (b : KV) (h : b.get countKey = none) : countOf b = 0 := by
+  simp [countOf, h, Gen.Conversion.BytesToUint64, Go.getLE64, ofLE64, natLE]
+
+/-- reading back what `changePointCount` wrote -/
+theorem countOf_put (b : KV) (x : BitVec 64) :
+    countOf (b.put countKey (Gen.Conversion.Uint64ToBytes x)) = x.toNat := by
+  simp [countOf, KV.get_put_same, C19.uint64_roundtrip]
+
+theorem Tie.countKey_eq : ([0x70#8, 0x6f#8, 0x69#8, 0x6e#8, 0x74#8, 0x43#8, 0x6f#8, 0x75#8, 0x6e#8, 0x74#8] : Bytes) = countKey := rfl
+
+theorem Tie.count_bits (v : Bytes) :
+    (if (!List.isEmpty v) = true then Gen.Conversion.BytesToUint64 v else 0x0#64) = Gen.Conversion.BytesToUint64 v := by
+  cases v with
+  | nil => simp [Gen.Conversion.BytesToUint64, Go.getLE64, ofLE64, natLE]
+  | cons a l => simp
+
+/-- **insert**: `changePointCount(bucket, len(points))` stores `countV + len(points)` and succeeds
+(counts below 2⁶³: Go converts the stored uint64 to `int`) -/
+theorem C01_tie_count_add (b : KV) (n : Nat) (h : countOf b + n < 2 ^ 63) :
+    Gen.PointCount.changePointCount b n =
+      (.ok (), b.put countKey (Gen.Conversion.Uint64ToBytes (BitVec.ofNat 64 (countOf b + n)))) := by
+  unfold Gen.PointCount.changePointCount
+  simp only [Tie.count_bits]
+  simp only [Tie.countKey_eq]
+  have hc : (Gen.Conversion.BytesToUint64 ((b.get countKey).getD [])).toInt = (countOf b : Int) := by
+    unfold countOf at h ⊢
+    rw [BitVec.toInt_eq_toNat_of_lt (by omega)]
+  have hnn : ¬ ((countOf b : Int) + (n : Int) < 0) := by omega
+  have hof : BitVec.ofInt 64 ((countOf b : Int) + (n : Int)) = BitVec.ofNat 64 (countOf b + n) := by
+    rw [← Int.natCast_add]; rfl
+  simp [hc, hnn, hof, KV.putBolt, countKey]
+
+/-- **delete**: `changePointCount(bucket, -len(deletedIds))` fails with the bucket unchanged when
+more points would be removed than are counted, else stores `countV - len(deletedIds)` -/
+theorem C01_tie_count_sub (b : KV) (k : Nat) (hc : countOf b < 2 ^ 63) :
+    Gen.PointCount.changePointCount b (-(k : Int)) =
+      if countOf b < k then (.error "point count cannot be negative", b)
+      else (.ok (), b.put countKey (Gen.Conversion.Uint64ToBytes (BitVec.ofNat 64 (countOf b - k)))) := by
+  unfold Gen.PointCount.changePointCount
+  simp only [Tie.count_bits]
+  simp only [Tie.countKey_eq]
+  have hcI : (Gen.Conversion.BytesToUint64 ((b.get countKey).getD [])).toInt = (countOf b : Int) := by
+    unfold countOf at hc ⊢
+    rw [BitVec.toInt_eq_toNat_of_lt (by omega)]
+  by_cases hlt : countOf b < k
+  · have hneg : ((countOf b : Int) + -(k : Int) < 0) := by omega
+    simp [hcI, hneg, hlt]
+  · have hnn : ¬ ((countOf b : Int) + -(k : Int) < 0) := by omega
+    have hof : BitVec.ofInt 64 ((countOf b : Int) + -(k : Int)) = BitVec.ofNat 64 (countOf b - k) := by
+      have : (countOf b : Int) + -(k : Int) = ((countOf b - k : Nat) : Int) := by omega
+      rw [this]; rfl
+    simp [hcI, hnn, hlt, hof, KV.putBolt, countKey]
+
+/-- non-vacuity: an empty bucket, three points inserted, then two deleted, then two more refused -/
+example : countOf (Gen.PointCount.changePointCount {} ((3 : Nat) : Int)).2 = 3 := by
+  rw [C01_tie_count_add {} 3 (by simp [countOf_absent {} rfl])]; simp [countOf_put, countOf_absent {} rfl]
 
 end Sema.C01
